@@ -1,97 +1,97 @@
 /-
-Specification of nested-object search (C20): documents with top-level fields and named arrays of
-objects; a conjunction all of whose leaves address one nested array must be satisfied by a single
-element of that array, everything else combines per parent document.
+Specification of nested-object search (C20), for any nesting depth.
+
+A document is its own object plus every element of every array of objects inside it, at any depth,
+each with the path of arrays leading to it and its index at each of them.  A leaf addresses a field
+of the objects at one array path (`[]` = the document itself).  Under the nested mapping a
+conjunction is met inside ONE object at the deepest array path all its leaves share (the join path),
+when that path is deeper than where the conjunction is being evaluated; everything else combines per
+enclosing object — per parent document at the top.  Without nesting every clause looks at all objects
+of its path.
 -/
 namespace Bleve.Nested
 
 abbrev Term := List Nat
 abbrev Name := List Nat
+abbrev Path := List Name
 
-/-- an object: its (field, term) pairs -/
-abbrev Obj := List (Name × Term)
+structure Node where
+  apath : Path                       -- arrays leading to this object
+  idx : List Nat                     -- element index at each of them
+  fields : List (Name × Term)
+deriving Repr
 
 structure Doc where
   id : List Nat
-  top : Obj
-  arrays : List (Name × List Obj)
+  nodes : List Node                  -- the document's own object (path []) and every array element
 deriving Repr
 
-/-- a leaf addresses a top-level field (`arr = []`) or a field of the elements of array `arr` -/
 inductive Q where
-  | term (arr : Name) (field : Name) (t : Term)
+  | term (path : Path) (field : Name) (t : Term)
   | conj (qs : List Q)
   | disj (min : Nat) (qs : List Q)
   | bool (must should mustNot : List Q) (minShould : Nat)
 
-def Obj.has (o : Obj) (f : Name) (t : Term) : Bool := o.contains (f, t)
+def Node.has (n : Node) (f : Name) (t : Term) : Bool := n.fields.contains (f, t)
 
-def Doc.elems (d : Doc) (arr : Name) : List Obj :=
-  ((d.arrays.find? (fun p => p.1 == arr)).map (·.2)).getD []
+/-- `n` is the object `c` or lies inside it -/
+def below (c n : Node) : Bool := c.apath.isPrefixOf n.apath && c.idx.isPrefixOf n.idx
+
+/-- the whole document as a context: everything lies below it -/
+def root : Node := ⟨[], [], []⟩
 
 mutual
-  /-- the arrays the leaves of a query address (`[]` = top level) -/
-  def arraysOf : Q → List Name
-    | .term a _ _ => [a]
-    | .conj qs => arraysOfList qs
-    | .disj _ qs => arraysOfList qs
-    | .bool m s n _ => arraysOfList m ++ arraysOfList s ++ arraysOfList n
-  def arraysOfList : List Q → List Name
+  def pathsOf : Q → List Path
+    | .term p _ _ => [p]
+    | .conj qs => pathsOfList qs
+    | .disj _ qs => pathsOfList qs
+    | .bool m s n _ => pathsOfList m ++ pathsOfList s ++ pathsOfList n
+  def pathsOfList : List Q → List Path
     | [] => []
-    | q :: qs => arraysOf q ++ arraysOfList qs
+    | q :: qs => pathsOf q ++ pathsOfList qs
 end
 
-/-- all leaves address one and the same nested array -/
-def singleArray (qs : List Q) : Option Name :=
-  match (arraysOfList qs).eraseDups with
-  | [a] => if a.isEmpty then none else some a
-  | _ => none
+/-- longest common prefix -/
+def lcp : Path → Path → Path
+  | a :: as, b :: bs => if a == b then a :: lcp as bs else []
+  | _, _ => []
 
-mutual
-  /-- evaluation inside one element of the array all leaves address -/
-  def evalElem : Q → Obj → Bool
-    | .term _ f t, o => o.has f t
-    | .conj qs, o => allElem qs o
-    | .disj min qs, o => decide (countElem qs o ≥ max 1 min)
-    | .bool m s n ms, o =>
-      allElem m o &&
-      (if s.isEmpty then true
-       else if m.isEmpty then decide (countElem s o ≥ max 1 ms) else (ms == 0 || decide (countElem s o ≥ ms))) &&
-      (countElem n o == 0) && !(m.isEmpty && s.isEmpty && n.isEmpty)
-  def allElem : List Q → Obj → Bool
-    | [], _ => true
-    | q :: qs, o => evalElem q o && allElem qs o
-  def countElem : List Q → Obj → Nat
-    | [], _ => 0
-    | q :: qs, o => (if evalElem q o then 1 else 0) + countElem qs o
-end
+/-- the deepest array path all leaves of the clauses share -/
+def joinPath (qs : List Q) : Path :=
+  match pathsOfList qs with
+  | [] => []
+  | p :: ps => ps.foldl lcp p
 
 mutual
-  /-- does the parent document match; `nested` = the arrays are mapped as nested -/
-  def eval (nested : Bool) : Q → Doc → Bool
-    | .term a f t, d => if a.isEmpty then d.top.has f t else (d.elems a).any (fun o => o.has f t)
-    | .conj qs, d =>
-      match (if nested then singleArray qs else none) with
-      | some a => (d.elems a).any (fun o => allElem qs o)
-      | none => evalAll nested qs d
-    | .disj min qs, d => decide (countTrue nested qs d ≥ max 1 min)
-    | .bool m s n ms, d =>
-      (match (if nested then singleArray m else none) with
-        | some a => (d.elems a).any (fun o => allElem m o)
-        | none => evalAll nested m d) &&
+  /-- does query `q` hold in context object `c` of document `d` -/
+  def eval (nested : Bool) (d : Doc) : Q → Node → Bool
+    | .term p f t, c => d.nodes.any (fun n => n.apath == p && below c n && n.has f t)
+    | .conj qs, c =>
+      if nested && decide (c.apath.length < (joinPath qs).length) then
+        d.nodes.any (fun m => m.apath == joinPath qs && below c m && evalAll nested d qs m)
+      else evalAll nested d qs c
+    | .disj min qs, c => decide (countTrue nested d qs c ≥ max 1 min)
+    | .bool m s n ms, c =>
+      (if nested && decide (c.apath.length < (joinPath m).length) then
+        d.nodes.any (fun x => x.apath == joinPath m && below c x && evalAll nested d m x)
+       else evalAll nested d m c) &&
       (if s.isEmpty then true
-       else if m.isEmpty then decide (countTrue nested s d ≥ max 1 ms) else (ms == 0 || decide (countTrue nested s d ≥ ms))) &&
-      (countTrue nested n d == 0) && !(m.isEmpty && s.isEmpty && n.isEmpty)
-  def evalAll (nested : Bool) : List Q → Doc → Bool
+       else if m.isEmpty then decide (countTrue nested d s c ≥ max 1 ms)
+       else (ms == 0 || decide (countTrue nested d s c ≥ ms))) &&
+      (countTrue nested d n c == 0) && !(m.isEmpty && s.isEmpty && n.isEmpty)
+  def evalAll (nested : Bool) (d : Doc) : List Q → Node → Bool
     | [], _ => true
-    | q :: qs, d => eval nested q d && evalAll nested qs d
-  def countTrue (nested : Bool) : List Q → Doc → Nat
+    | q :: qs, c => eval nested d q c && evalAll nested d qs c
+  def countTrue (nested : Bool) (d : Doc) : List Q → Node → Nat
     | [], _ => 0
-    | q :: qs, d => (if eval nested q d then 1 else 0) + countTrue nested qs d
+    | q :: qs, c => (if eval nested d q c then 1 else 0) + countTrue nested d qs c
 end
+
+/-- does the parent document match -/
+def docMatches (nested : Bool) (q : Q) (d : Doc) : Bool := eval nested d q root
 
 /-- the parents a search returns, each once, in corpus order -/
 def search (nested : Bool) (q : Q) (corpus : List Doc) : List (List Nat) :=
-  (corpus.filter (eval nested q)).map (·.id)
+  (corpus.filter (docMatches nested q)).map (·.id)
 
 end Bleve.Nested
